@@ -507,6 +507,8 @@ def check_bundled_closed(rep):
 
 
 def correspondence(rep, rng, tier):
+    from .. import pipeline as _PL
+    _PL.section_e2e(rep, rng, tier, n=(120 if tier == 'quick' else 4000))
     check_bundled_closed(rep)
     n = 1500 if tier == 'quick' else 40000
     cases = fixed_cases() + [gen_case(rng, reqs='t', perturb=(i % 3 == 0)) for i in range(n)]
